@@ -10,6 +10,7 @@ import json
 import os
 import random
 import re
+import threading
 import shutil
 import subprocess
 import sys
@@ -268,6 +269,22 @@ class Ctx:
     def coq_eval(self, name: str, text: str, timeout: int = 600) -> tuple[bool, str]:
         f = self.scratch / f'{name}.v'
         f.write_text(text)
+        # the NL modules the text requires may lie outside the dependency closure of the property
+        # file (helpers used only by case files): build them first (no-op when up to date)
+        need = []
+        for m in re.finditer(r'From\s+NL\s+Require\s+(?:Import\s+|Export\s+)?([A-Za-z0-9_.\s]+?)\.\s', text):
+            for mod in m.group(1).split():
+                rel = 'theories/' + mod.replace('.', '/') + '.vo'
+                if (COQ / rel[:-1]).exists() and rel not in _EVAL_BUILT:
+                    need.append(rel)
+        if need:
+            with _EVAL_LOCK:
+                need = [t for t in need if t not in _EVAL_BUILT]
+                if need:
+                    ok, log = coq_make(need, timeout=1500)
+                    if not ok:
+                        return False, 'building ' + ' '.join(need) + ' failed:\n' + log[-2000:]
+                    _EVAL_BUILT.update(need)
         r = sh(['timeout', str(timeout), 'coqc', '-Q', str(THEORIES), 'NL',
                 '-w', '-notation-overridden', str(f)], cwd=self.scratch, timeout=timeout + 30)
         return r.returncode == 0, r.stdout
@@ -277,6 +294,10 @@ class Ctx:
         with ThreadPoolExecutor(par) as ex:
             futs = {n: ex.submit(self.coq_eval, n, t, timeout) for n, t in files.items()}
             return {n: f.result() for n, f in futs.items()}
+
+
+_EVAL_BUILT: set = set()
+_EVAL_LOCK = threading.Lock()
 
 
 def parse_nat_list(out: str, marker: str = '') -> Optional[list[int]]:
